@@ -443,37 +443,94 @@ example : (buildIndexFromTree validateNtfs [[119]] [⟨[97, 47, 98], 0o100644, [
     (buildIndexFromTree validateNtfs [[119]] [⟨[97, 47, 98], 0o100644, [7]⟩, ⟨[97, 47, 99], 0o120000, [46, 46]⟩] exFs).1.safe = [[97]] := by
   decide
 
-/-! ## 8. The delete phase of `update_working_tree` (finding F-C17-delete-through-symlink) -/
+/-! ## 8. The delete phase and the pre-checks of `update_working_tree` (after the repair of
+F-C17-delete-through-symlink: old paths are lstat'ed through `_lstat_tracked_path`) -/
 
-/-- The FULL statement one would like for the delete phase: every unlink it performs is confined, for every file
-system.  It is FALSE for the code as it stands (`delete_phase_counterexample`). -/
-def DeleteConfinedStatement : Prop :=
-  ∀ (root : PPath) (paths : List Bytes) (fs : FS),
-    ∀ m ∈ (deletePhase validateNtfs root paths { fs := fs, log := [], safe := [] }).1.log, Confined root m.target
+/-- **`delete_confined`** — the full statement, for the delete step AS CODED NOW (`Gen.deleteGuarded`, read from the
+source by the translator), for EVERY file system, root, validator and list of old paths: every unlink the delete
+phase performs acts, after symlink resolution, on a path strictly below the root and outside `root/.git`.
+(If the guard is removed from the source the translator emits `deleteGuarded := false` and this proof no longer
+compiles.) -/
+theorem delete_confined (fold : List Nat → List Nat) (hf : FoldAsciiOk fold) (v : Validator) (root : PPath) :
+    ∀ (paths : List Bytes) (st : St),
+      ∀ m ∈ (deletePhase (v.run fold) root paths st).1.log, m ∈ st.log ∨ Confined root m.target := by
+  have hg : deleteGuarded = true := rfl
+  have step : ∀ (path : Bytes) (st : St), ∀ m ∈ (deleteOldG true (v.run fold) root path st).1.log,
+      m ∈ st.log ∨ Confined root m.target := by
+    intro path st m hm
+    by_cases hval : validatePath (v.run fold) path = true
+    · have hcl := validated_clean fold hf v path hval
+      have hne := splitOn_ne_nil pathSep path
+      obtain ⟨lead, last, hsplit⟩ : ∃ lead last, splitOn pathSep path = lead ++ [last] :=
+        ⟨_, _, (List.dropLast_concat_getLast hne).symm⟩
+      have hE := deleteOldG_guarded_ext (root := root) (v.run fold) path st lead last hsplit (by rw [← hsplit]; exact hcl)
+      rcases hE.log m hm with h | ⟨i, hi1, hi2, ht⟩
+      · exact Or.inl h
+      · right
+        obtain ⟨_, _, c, rest, hsp, hc⟩ := lexical_confined fold hf v path hval root
+        have hs := validate_path_lexical fold hf v path hval c (by rw [hsp]; exact List.mem_cons_self)
+        refine ⟨c, rest.take (i - 1), ?_, hc, hs.1, hs.2.1, hs.2.2.1⟩
+        rw [ht, ← hsplit, hsp]
+        cases i with
+        | zero => omega
+        | succ i => simp
+    · have : validatePath (v.run fold) path = false := by simpa using hval
+      simp only [deleteOldG, this, if_true] at hm
+      exact Or.inl hm
+  intro paths
+  unfold deletePhase
+  rw [hg]
+  induction paths with
+  | nil => intro st m hm; exact Or.inl hm
+  | cons p ps ih =>
+    intro st m hm
+    simp only [deletePhaseG] at hm
+    have h1 := step p st
+    generalize deleteOldG true (v.run fold) root p st = r at *
+    obtain ⟨st1, e1⟩ := r
+    cases e1 with
+    | some err => exact h1 m hm
+    | none =>
+      simp only [Step.andThen] at hm
+      rcases ih st1 m hm with h | h
+      · exact h1 m h
+      · exact Or.inr h
 
-/-- **Negation witness** (replayed on the real code every run: corpus/C17/f18-*.json).  Work tree `w` with
-`w/d -> ../o` on disk and the old tree listing `d/x`: the delete phase unlinks `o/x`, OUTSIDE the work tree. -/
-theorem delete_phase_counterexample :
-    (deletePhase validateNtfs [[119]] [[100, 47, 120]] { fs := exFs, log := [], safe := [] }).1.log
-      = [.unlink [[111], [120]]] ∧ ¬ Confined [[119]] [[111], [120]] ∧ ¬ DeleteConfinedStatement := by
-  have h1 : (deletePhase validateNtfs [[119]] [[100, 47, 120]] { fs := exFs, log := [], safe := [] }).1.log
-      = [.unlink [[111], [120]]] := by decide
-  have h2 : ¬ Confined [[119]] [[111], [120]] := by
-    rintro ⟨c, rest, h, _⟩
-    simp at h
-  refine ⟨h1, h2, fun hall => h2 ?_⟩
-  have := hall [[119]] [[100, 47, 120]] exFs (.unlink [[111], [120]]) (by rw [h1]; exact List.mem_cons_self)
-  exact this
+/-- **The pre-checks are lexical too**: whenever the guarded lstat used by the uncommitted-modification check and
+the file-becoming-directory check reports an object for a clean path, every leading component is a real directory
+and the object is the one at the lexical path inside the work tree — for every file system. -/
+theorem precheck_lexical (root : PPath) (path : Bytes) (fs : FS) (n : Node) (hcl : Clean (splitOn pathSep path))
+    (h : precheckOld root path fs = .ok n) :
+    fs (root ++ splitOn pathSep path) = some n ∧
+    ∀ i, 1 ≤ i → i < (splitOn pathSep path).length → fs (root ++ (splitOn pathSep path).take i) = some .dir := by
+  have hne := splitOn_ne_nil pathSep path
+  obtain ⟨lead, last, hsplit⟩ : ∃ lead last, splitOn pathSep path = lead ++ [last] :=
+    ⟨_, _, (List.dropLast_concat_getLast hne).symm⟩
+  unfold precheckOld at h
+  rw [hsplit] at h hcl ⊢
+  obtain ⟨hd, hP⟩ := lstatTracked_lexical (root := root) hcl h
+  refine ⟨hP, fun i h1 h2 => ?_⟩
+  have h2' : i ≤ lead.length := by simp at h2; omega
+  rw [List.take_append_of_le_length h2']
+  exact hd i h1 h2'
 
-/-- **`delete_confined_partial`**: what IS true of the delete phase as coded.  Under the hypothesis the proof
-forces — every leading component of the old path is a real directory on disk ("the work tree's directory
-skeleton matches the old tree") — the unlink acts on the lexical path below the root, outside `.git`.  The
-hypothesis is exactly what `verify_leading_dirs` would establish; it fails when the index/HEAD lists `d/x`
-while `d` is a symlink (after a mixed or soft reset, or a stash pop). -/
-theorem delete_confined_partial (fold : List Nat → List Nat) (hf : FoldAsciiOk fold) (v : Validator) (root : PPath)
+/-- **Regression witness for the OLD code** (bare `os.lstat(full_path)` in the delete phase; replayed on the real
+code every run: corpus/C17/f18-*.json).  Work tree `w` with `w/d -> ../o` on disk and the old tree listing `d/x`: the
+unguarded delete unlinks `o/x`, OUTSIDE the work tree; the guarded one (the code now) does nothing. -/
+theorem delete_phase_old_counterexample :
+    (deletePhaseG false validateNtfs [[119]] [[100, 47, 120]] { fs := exFs, log := [], safe := [] }).1.log
+      = [.unlink [[111], [120]]] ∧ ¬ Confined [[119]] [[111], [120]] ∧
+    (deletePhaseG true validateNtfs [[119]] [[100, 47, 120]] { fs := exFs, log := [], safe := [] }).1.log = [] := by
+  refine ⟨by decide, ?_, by decide⟩
+  rintro ⟨c, rest, h, _⟩
+  simp at h
+
+/-- what was true of the old code: confined only under the hypothesis that every leading component is a real
+directory — exactly what the guard now establishes -/
+theorem delete_old_confined_partial (fold : List Nat → List Nat) (hf : FoldAsciiOk fold) (v : Validator) (root : PPath)
     (path : Bytes) (st : St)
     (hskel : ∀ i, 1 ≤ i → i < (splitOn pathSep path).length → st.fs (root ++ (splitOn pathSep path).take i) = some .dir) :
-    ∀ m ∈ (deleteOld (v.run fold) root path st).1.log, m ∈ st.log ∨ Confined root m.target := by
+    ∀ m ∈ (deleteOldG false (v.run fold) root path st).1.log, m ∈ st.log ∨ Confined root m.target := by
   intro m hm
   by_cases hval : validatePath (v.run fold) path = true
   · have hcl := validated_clean fold hf v path hval
@@ -496,7 +553,7 @@ theorem delete_confined_partial (fold : List Nat → List Nat) (hf : FoldAsciiOk
       | zero => omega
       | succ i => simp
   · have : validatePath (v.run fold) path = false := by simpa using hval
-    simp only [deleteOld, this, if_true] at hm
+    simp only [deleteOldG, this, if_true] at hm
     exact Or.inl hm
 
 end Dulwich.Props.C17
